@@ -1,6 +1,8 @@
 """C10 beyond the exhaustive universe: recorded random histories on 6 vertices x 3 labels (the
 same recorder as C09, which logs acceptance, enumeration and every derived automaton) validated
-by TLC against FSATrace.tla, and the built-in automata checked for the laws that need no table."""
+by TLC against FSATrace.tla; histories recorded on the built-in automata (shortest-path version from several roots,
+recurrent version, enumeration) validated in the same TLC run; and the built-in automata checked for the laws that
+need no table."""
 from .. import fsa_common as fc
 from . import c09_trace
 
@@ -48,6 +50,50 @@ def builtin_laws(run):
             run.violation("builtin:%s:raise" % name, "raised:builtin", dict(file=name, error="%s: %s" % (type(e).__name__, e)))
 
 
+def builtin_traces(run, max_states):
+    """histories recorded on the built-in automata (the automata of the property's quantifier that are far larger than
+    the exhaustive universe): load, shortest-path version from the start state and from two other roots, recurrent
+    version, enumeration from the start state.  They are validated by TLC against FSATrace.tla (ShortE, PruneAll,
+    Paths of FSAOps.tla are the oracle) together with the random histories."""
+    from geometry_tools.automata import fsa
+    from .. import fsa_trace
+    traces, verts, labels = [], set(), set()
+    for name in sorted(fsa.list_builtins()):
+        try:
+            f = fsa.load_builtin(name)
+            vs = list(f.vertices())
+            if len(vs) > max_states or not all(isinstance(v, int) for v in vs):
+                continue
+            edges = [[t, l, h] for (t, h, l) in f.edges(with_labels=True)]
+            evs = [dict(op="build_graph_dict", keys=list(vs), edges=edges, post=fsa_trace.views(f))]
+            start = f.start_vertices[0]
+            for root in dict.fromkeys([start, vs[len(vs) // 2], vs[-1]]):
+                evs.append(dict(op="short", root=root, res=fsa_trace.views(f.remove_long_paths(root=root)),
+                                post=fsa_trace.views(f)))
+            evs.append(dict(op="recurrent_copy", res=fsa_trace.views(f.recurrent(inplace=False)), post=fsa_trace.views(f)))
+            for op, k in (("enumerate", 3), ("enumerate_words", 2)):
+                fn = f.enumerate_fixed_length_paths if op == "enumerate" else f.enumerate_words
+                evs.append(dict(op=op, v=start, k=k, res=[[list(w), e] for w, e in fn(k, start_vertex=start, with_states=True)],
+                                post=fsa_trace.views(f)))
+        except Exception as e:
+            run.violation("builtin-trace:%s:raise" % name, "raised:builtin_trace", dict(file=name, error="%s: %s" % (type(e).__name__, e)))
+            continue
+        run.case(key=("builtin-trace", name), action="builtin_trace")
+        traces.append(evs)
+        verts |= set(vs)
+        labels |= {e[1] for e in edges}
+    if not traces:
+        raise core_failure("no built-in automaton small enough to be validated by TLC")
+    return traces, verts, labels
+
+
+def core_failure(msg):
+    from .. import core
+    return core.MachineryFailure(msg)
+
+
 def run(run):
-    c09_trace.run(run, n=100 if run.tier == "quick" else 1000)
+    quick = run.tier == "quick"
+    traces, verts, labels = builtin_traces(run, max_states=40 if quick else 130)
+    c09_trace.run(run, n=100 if quick else 1000, extra_traces=traces, extra_verts=verts, extra_labels=labels)
     builtin_laws(run)
